@@ -35,7 +35,7 @@ func init() {
 				return 1_500_000
 			}, Run: c06Arc,
 				Min: map[string]int64{"arcs": 100000, "relative": 20000, "absolute": 20000, "scaled_up_radii": 10000, "large_arc": 20000, "sweep_positive": 20000, "sweep_negative": 20000,
-					"zero_radius": 5000, "lattice_mode": 20000, "lattice_endpoint_equals_pen_pixels": 5000, "cubics_1": 1000, "cubics_2": 1000, "cubics_3": 1000, "cubics_4": 1000, "negative_radius": 5000}},
+					"zero_radius": 5000, "exact_semicircles": 2000, "reset_before_setrasterizer": 50000, "rectangle_changed_after_reset": 50000, "lattice_mode": 20000, "lattice_endpoint_equals_pen_pixels": 5000, "cubics_1": 1000, "cubics_2": 1000, "cubics_3": 1000, "cubics_4": 1000, "negative_radius": 5000}},
 		},
 	})
 }
@@ -101,6 +101,20 @@ func c06Arc(c *run.Ctx, idx uint64) {
 	if lattice && r.Bool() {
 		rx, ry = float32(math.Round(float64(rx))+1), float32(math.Round(float64(ry))+1)
 	}
+	semicircle := lattice && r.Chance(1, 4)
+	if semicircle {
+		// radii that span the chord *exactly* (a half turn): the term under
+		// the square root of the centre computation is zero up to rounding
+		py := [][3]int{{3, 4, 5}, {6, 8, 10}, {5, 12, 13}, {8, 15, 17}, {12, 16, 20}, {7, 24, 25}}[r.Intn(6)]
+		sgx, sgy := float32(r.Pick(-1, 1)), float32(r.Pick(-1, 1))
+		ex, ey = x0+sgx*float32(py[0]), y0+sgy*float32(py[1])
+		if r.Bool() {
+			ex, ey = x0+sgx*float32(py[1]), y0+sgy*float32(py[0])
+		}
+		rx, ry = float32(py[2])/2, float32(py[2])/2
+		d = float64(py[2])
+		c.Count("exact_semicircles", 1)
+	}
 	if r.Chance(1, 4) {
 		rx = -rx
 		c.Count("negative_radius", 1)
@@ -130,8 +144,20 @@ func c06Arc(c *run.Ctx, idx uint64) {
 
 	rz := &rec.Raster{}
 	var z render.Renderer
-	z.SetRasterizer(rz, rect)
-	z.Reset(vb, ivg.DefaultPalette)
+	switch idx % 4 {
+	case 0:
+		z.Reset(vb, ivg.DefaultPalette)
+		z.SetRasterizer(rz, rect)
+		c.Count("reset_before_setrasterizer", 1)
+	case 1:
+		z.SetRasterizer(rz, image.Rect(0, 0, w*2+3, h+5))
+		z.Reset(vb, ivg.DefaultPalette)
+		z.SetRasterizer(rz, rect)
+		c.Count("rectangle_changed_after_reset", 1)
+	default:
+		z.SetRasterizer(rz, rect)
+		z.Reset(vb, ivg.DefaultPalette)
+	}
 	z.StartPath(0, x0, y0)
 	if r.Chance(1, 3) && !lattice {
 		// move the pen by a relative line first, so that it is not a mapped float32 point
